@@ -43,6 +43,8 @@ class remove_carriage_return_after_token(structure.Rule):
                     if isinstance(oToken, parser.comment):
                         break
                     if isinstance(oToken, parser.carriage_return):
+                        if is_followed_by_preprocessor(iToken, lTokens):
+                            break
                         oViolation = violation.New(oToi.get_line_number(), oToi, self.solution)
                         self.add_violation(oViolation)
                         break
@@ -60,13 +62,27 @@ class remove_carriage_return_after_token(structure.Rule):
 
 
 def remove_carriage_returns_before_first_comment(lTokens):
-    """A line break that follows a comment ends that comment and must stay."""
+    """
+    A line break that follows a comment ends that comment and must stay.
+    A preprocessor line is a line of its own: the line break in front of it ends the search, too.
+    """
     lReturn = []
-    bCommentFound = False
-    for oToken in lTokens:
+    bKeep = False
+    for iToken, oToken in enumerate(lTokens):
         if isinstance(oToken, parser.comment):
-            bCommentFound = True
-        if isinstance(oToken, parser.carriage_return) and not bCommentFound:
-            continue
+            bKeep = True
+        if isinstance(oToken, parser.carriage_return) and not bKeep:
+            if is_followed_by_preprocessor(iToken, lTokens):
+                bKeep = True
+            else:
+                continue
         lReturn.append(oToken)
     return lReturn
+
+
+def is_followed_by_preprocessor(iToken, lTokens):
+    for oToken in lTokens[iToken + 1 :]:
+        if isinstance(oToken, parser.whitespace):
+            continue
+        return isinstance(oToken, parser.preprocessor)
+    return False
